@@ -26,7 +26,9 @@ chk.extra['rule'] = ('residue chains (2-4 residues, template atoms N CA C O CB [
                      'patterns and their sub-patterns), attachments with wrong element / extra atom / extra bond, '
                      'several on one residue, PTM atoms with a foreign resid, residues pre-labelled by `modify`; a second '
                      'stream of two-iteration interactions (groups sharing a residue with keys [r], [r,r], [r,s]; '
-                     'known and unknown attachments in both processing orders); '
+                     'known and unknown attachments in both processing orders); a stream of sites where a modification fits '
+                     'only with an extra bond among the matched atoms next to a genuine site (rings); a stream where a '
+                     'template atom carries the name of an added atom of a larger modification (stand-ins); '
                      'a case is non-trivial if it has >= 1 flagged atom and >= 2 candidate placements in one '
                      'iteration; distinct = distinct protocol line')
 chk.trusted.append('harness/c14.py: object construction, recording wrappers, canonicalisation, Python oracle '
@@ -112,22 +114,40 @@ class Recorder(logging.Handler):
 class RecGM(nx.isomorphism.GraphMatcher):
     """GraphMatcher that remembers the placements it produces (in its own order)."""
     created = []
+    in_cover = 0      # > 0 while the real _cover_graph is running: only then are candidate lists recorded
 
     def __init__(self, G1, G2, node_match=None, edge_match=None):
         super().__init__(G1, G2, node_match=node_match, edge_match=edge_match)
         self.is_ptm = node_match is canmod.ptm_node_matcher
         self.init_list = None
+        self.used_list = None     # what the real code iterated over (first call), whatever method it used
         self.unstable = False
         if self.is_ptm:
             fresh = nx.isomorphism.GraphMatcher(G1, G2, node_match=node_match)
             self.init_list = [dict(m) for m in fresh.subgraph_isomorphisms_iter()]
         RecGM.created.append(self)
 
-    def subgraph_isomorphisms_iter(self):
-        out = [dict(m) for m in super().subgraph_isomorphisms_iter()]
-        if self.is_ptm and out != self.init_list:
-            self.unstable = True
+    def _record(self, out):
+        if self.is_ptm and RecGM.in_cover > 0:
+            if self.used_list is None:
+                self.used_list = out
+            elif out != self.used_list:
+                self.unstable = True
         return iter(out)
+
+    def subgraph_isomorphisms_iter(self):
+        return self._record([dict(m) for m in super().subgraph_isomorphisms_iter()])
+
+    def subgraph_monomorphisms_iter(self):
+        return self._record([dict(m) for m in super().subgraph_monomorphisms_iter()])
+
+    def isomorphisms_iter(self):
+        return self._record([dict(m) for m in super().isomorphisms_iter()])
+
+    def placements(self):
+        """the candidate list the real code worked with (the induced list computed at creation if
+        the code never asked)"""
+        return self.used_list if self.used_list is not None else self.init_list
 
 
 class NxProxy:
@@ -149,10 +169,12 @@ def run_real(spec, mods, mol):
 
     def cover_wrap(graph, to_cover, fragments):
         depth[0] += 1
+        RecGM.in_cover += 1
         try:
             out = orig_cover(graph, to_cover, fragments)
         finally:
             depth[0] -= 1
+            RecGM.in_cover -= 1
         if depth[0] == 0:
             top_len[0] = len(out)
         return out
@@ -164,7 +186,7 @@ def run_real(spec, mods, mol):
         edges = sorted(tuple(sorted(e)) for e in residue.edges)
         groups = [(set(a), set(b)) for a, b in residue_ptms]
         it = {'snap': snap, 'edges': edges, 'groups': groups,
-              'options': [(mods.index(g), [sorted(m.items()) for m in gm.init_list]) for g, gm in known_ptms],
+              'options': None,
               'unstable': False, 'result': None, 'used': None,
               'key': sorted(mol.nodes[a]['resid'] for a in groups[0][1]) if groups else []}
         iters.append(it)
@@ -173,6 +195,7 @@ def run_real(spec, mods, mol):
             out = orig_identify(residue, residue_ptms, known_ptms, *rest, **kw)
         finally:
             it['unstable'] = any(gm.unstable for _, gm in known_ptms)
+            it['options'] = [(mods.index(g), [sorted(m.items()) for m in gm.placements()]) for g, gm in known_ptms]
         ncov = top_len[0] or 0
         entries = [(mods.index(p), sorted(m.items())) for p, m in out]
         it['used'] = entries[:len(entries) - ncov]
@@ -186,6 +209,7 @@ def run_real(spec, mods, mol):
     lg.setLevel(1)
     canmod.identify_ptms, canmod._cover_graph, canmod.nx = identify_wrap, cover_wrap, NxProxy()
     RecGM.created = []
+    RecGM.in_cover = 0
     status = 'ok'
     try:
         canmod.CanonicalizeModifications().run_molecule(mol)
@@ -323,6 +347,38 @@ def oracle(spec, mods, mol0, mol, run):
         for (mi, pl) in (it['used'] or []) + (it['result'] or []):
             for a, _ in pl:
                 placed.setdefault(a, []).append((ii, mi, tuple(pl)))
+    # roles inside every placement chosen by the cover search: an added (PTM) atom of the modification
+    # is played by a flagged atom of the iteration's groups only, an anchor by an unflagged atom that
+    # carries the anchor's name; the placement maps every node of the modification
+    flagged_set = set(flagged)
+    for ii, it in enumerate(run['iters']):
+        group_atoms = set()
+        for g in it['groups']:
+            group_atoms |= g[0]
+        for (mi, pl) in (it['result'] or []):
+            mod = mods[mi]
+            if {q for _, q in pl} != set(mod.nodes) or len({a for a, _ in pl}) != len(pl):
+                errs.append('placement of %s on %s does not map every node of the modification once'
+                            % (mod.name, [x for x, _ in pl]))
+            for a, q in pl:
+                mnode = mod.nodes[q]
+                if mnode.get('PTM_atom'):
+                    if a not in flagged_set:
+                        errs.append('template atom %d (%s) plays the added atom %s of %s'
+                                    % (a, it['snap'].get(a, ('?',))[0], mnode.get('atomname'), mod.name))
+                    elif a not in group_atoms:
+                        errs.append('flagged atom %d of another group plays the added atom %s of %s'
+                                    % (a, mnode.get('atomname'), mod.name))
+                else:
+                    if a in flagged_set:
+                        errs.append('flagged atom %d plays the anchor %s of %s' % (a, mnode.get('atomname'), mod.name))
+                    elif it['snap'].get(a, (None,))[0] != mnode.get('atomname'):
+                        errs.append('atom %d named %r plays the anchor %s of %s'
+                                    % (a, it['snap'].get(a, (None,))[0], mnode.get('atomname'), mod.name))
+            cands = py_placements(it['snap'], it['edges'], mod)
+            if not any(sorted(c.items()) == sorted(pl) for c in cands):
+                errs.append('chosen placement of %s on %s is not an induced placement (anchors by name, added '
+                            'atoms by element)' % (mod.name, [x for x, _ in pl]))
     input_elem = {k: at.get('element') for k, r, p, h, ml, at in spec['atoms']}
     resid_of = {k: r for k, r, p, h, ml, at in spec['atoms']}
     writers = {}
@@ -696,6 +752,135 @@ def gen_two_iter(rng):
     return {'atoms': atoms, 'edges': edges, 'mods': mods, 'hist': hist}
 
 
+def chain(rng, nres):
+    """plain residue chain; returns atoms, edges, byres, next key"""
+    atoms, edges, byres = [], [], []
+    key = rng.choice([0, 2])
+    rid = rng.choice([1, 7, 30])
+    prevC = None
+    for r in range(nres):
+        idx = {}
+        resname = rng.choice(['ALA', 'CYS'])
+        for nm, el in TEMPLATE:
+            atoms.append([key, rid, 0, 0, [], A(nm, el, resname=resname)])
+            idx[nm] = key
+            key += 1
+        for a, b in TBONDS:
+            edges.append([idx[a], idx[b]])
+        if prevC is not None:
+            edges.append([prevC, idx['N']])
+        prevC = idx['C']
+        byres.append((rid, idx))
+        rid += rng.choice([1, 2])
+    return atoms, edges, byres, key
+
+
+def place_anchors(rng, matoms, byres):
+    """map the anchors of a pattern on template atoms (second anchor of the same name on the next residue)"""
+    place, seen = {}, {}
+    ri = rng.randrange(len(byres))
+    for a in matoms:
+        if a[1]:
+            continue
+        nm = a[2]['atomname']
+        which = ri if nm not in seen else (ri + 1) % len(byres)
+        seen[nm] = 1
+        idx = byres[which][1]
+        if nm not in idx or idx[nm] in place.values():
+            return None, ri
+        place[a[0]] = idx[nm]
+    return place, ri
+
+
+def gen_ring(rng):
+    """a modification with a genuine (induced) site and a second site on the same anchors where it fits
+    only with an extra bond among the matched atoms (ring closure / bond between two added atoms)"""
+    L = lib_fixed()
+    pool = ['COOH', 'PHOS', 'PHOSH', 'NH3', 'OO', 'SS', 'XL', 'ETH']
+    L['ETH'] = ([[0, 0, A('N', 'N'), None], [1, 1, A('CE1', 'C'), None], [2, 1, A('CE2', 'C'), None]], [[0, 1], [1, 2]])
+    src = rng.choice(pool)
+    names = [src] + rng.sample([n for n in sorted(L) if n != src], rng.randint(0, 3))
+    rng.shuffle(names)
+    mods = [{'name': n, 'atoms': copy.deepcopy(L[n][0]), 'edges': copy.deepcopy(L[n][1])} for n in names]
+    atoms, edges, byres, key = chain(rng, rng.randint(2, 3))
+    matoms, medges = L[src]
+    place0, ri = place_anchors(rng, matoms, byres)
+    hist = ['ring_' + src]
+    if place0 is None:
+        return {'atoms': atoms, 'edges': edges, 'mods': mods, 'hist': ['ring_unplaced']}
+    sites = []
+    for site in range(2):
+        place = dict(place0)
+        for a in matoms:
+            if a[1]:
+                atoms.append([key, byres[ri][0], 1, 0, [], A('X%d' % key, a[2]['element'], resname='UNK')])
+                place[a[0]] = key
+                key += 1
+        for u, v in medges:
+            e = [place[u], place[v]]
+            if e not in edges and e[::-1] not in edges:
+                edges.append(e)
+        sites.append(place)
+    # the extra bond on the second site (sometimes none, sometimes on both: then nothing is induced)
+    nodes = [a[0] for a in matoms]
+    non = [(u, v) for u, v in itertools.combinations(nodes, 2)
+           if [u, v] not in medges and [v, u] not in medges
+           and (matoms[nodes.index(u)][1] or matoms[nodes.index(v)][1])]
+    t = rng.random()
+    if non and t < 0.8:
+        u, v = rng.choice(non)
+        for place in (sites[1:] if t < 0.7 else sites):
+            e = [place[u], place[v]]
+            if e not in edges and e[::-1] not in edges:
+                edges.append(e)
+        hist.append('ring_second_site' if t < 0.7 else 'ring_both_sites')
+    else:
+        hist.append('ring_none')
+    if rng.random() < 0.3:
+        rng.shuffle(atoms)
+    return {'atoms': atoms, 'edges': edges, 'mods': mods, 'hist': hist}
+
+
+def gen_standin(rng):
+    """a template atom that carries the NAME of an added atom of a larger modification sits where that
+    added atom would be; only the remaining atoms are flagged (sub-patterns of one another in the library)"""
+    L = lib_fixed()
+    L['HD'] = ([[0, 0, A('CA', 'C'), None], [1, 0, A('CB', 'C'), None], [2, 1, A('HD1', 'H'), None]], [[0, 1], [1, 2]])
+    L['HE'] = ([[0, 0, A('CA', 'C'), None], [1, 0, A('N', 'N'), None], [2, 1, A('HE2', 'H'), None]], [[0, 1], [1, 2]])
+    L['HP'] = ([[0, 0, A('CA', 'C'), None], [1, 0, A('CB', 'C'), None], [2, 0, A('N', 'N'), None],
+                [3, 1, A('HD1', 'H'), None], [4, 1, A('HE2', 'H'), None]], [[0, 1], [0, 2], [1, 3], [2, 4]])
+    big = rng.choice(['HP', 'NH3', 'COOH', 'PHOS', 'PHOSH', 'OO', 'SS'])
+    names = {big}
+    names |= {'HP': {'HD', 'HE'}, 'NH3': {'NH'}, 'COOH': {'OXT'}, 'PHOSH': {'PHOS'}, 'OO': {'OXT'}, 'SS': {'SH'},
+              'PHOS': set()}[big] if rng.random() < 0.8 else set()
+    names |= set(rng.sample(sorted(set(L) - names), rng.randint(0, 2)))
+    names = sorted(names)
+    rng.shuffle(names)
+    mods = [{'name': n, 'atoms': copy.deepcopy(L[n][0]), 'edges': copy.deepcopy(L[n][1])} for n in names]
+    atoms, edges, byres, key = chain(rng, rng.randint(1, 2))
+    matoms, medges = L[big]
+    place, ri = place_anchors(rng, matoms, byres)
+    if place is None:
+        return {'atoms': atoms, 'edges': edges, 'mods': mods, 'hist': ['standin_unplaced']}
+    ptm = [a for a in matoms if a[1]]
+    k = rng.randint(1, len(ptm) - 1) if len(ptm) > 1 else 0
+    template = set(a[0] for a in rng.sample(ptm, k))
+    for a in ptm:
+        if a[0] in template:      # accounted for by the residue template, carries the modification's name
+            atoms.append([key, byres[ri][0], 0, 0, [], A(a[2]['atomname'], a[2]['element'], resname='ALA')])
+        else:
+            atoms.append([key, byres[ri][0], 1, 0, [], A('X%d' % key, a[2]['element'], resname='UNK')])
+        place[a[0]] = key
+        key += 1
+    for u, v in medges:
+        e = [place[u], place[v]]
+        if e not in edges and e[::-1] not in edges:
+            edges.append(e)
+    if rng.random() < 0.3:
+        rng.shuffle(atoms)
+    return {'atoms': atoms, 'edges': edges, 'mods': mods, 'hist': ['standin_' + big, 'standin_template=%d' % len(template)]}
+
+
 # ----------------------------------------------------------------------------
 # run
 # ----------------------------------------------------------------------------
@@ -710,6 +895,12 @@ for i in range(N):
 rng2 = chk.rng('two-iterations')
 for i in range(N // 3):
     cases.append(('two-%d' % i, gen_two_iter(rng2)))
+rng3 = chk.rng('rings')
+for i in range(N // 4):
+    cases.append(('ring-%d' % i, gen_ring(rng3)))
+rng4 = chk.rng('stand-ins')
+for i in range(N // 4):
+    cases.append(('standin-%d' % i, gen_standin(rng4)))
 
 lines, impls, meta = [], [], []
 for cid, spec in cases:
